@@ -40,7 +40,8 @@ def histories():
 
 
 def pool(rng, k):
-    sch = [ac.P_UNI1, ac.P_UNI5, ac.P_IND1, ac.P_PSE5]
+    sch = [ac.P_UNI1, ac.P_UNI5, ac.P_IND1, ac.P_PSE5, ([0, 8, 8, 0, 8, 8], [8, 8, 0, 8, 8, 0], 4),
+           ([0, 2, 1, 0, 0, 0], [1, 1, 0, 0, 0, 0], 4), ([0, 12, 6, 0, 12, 0], [6, 6, 0, 6, 6, 0], 4)]
     out = []
     g = grids.datasets(3, 2)
     for j in range(k):
